@@ -11,7 +11,7 @@ from dataclasses import dataclass, field
 
 import z3
 
-TIMEOUT_MS = int(os.environ.get("PYVC_TIMEOUT_MS", "20000"))
+TIMEOUT_MS = int(os.environ.get("PYVC_TIMEOUT_MS", "10000"))
 WORKERS = int(os.environ.get("PYVC_WORKERS", "16"))
 
 
